@@ -67,13 +67,29 @@ def truthy : Option Nat → Bool
 
 /-! ### `TiledStride.from_stride`, `TiledStridedLayout.from_strides` -/
 
-/-- steps for the tile bounds `b₀ :: tail`: called on `tail`. -/
+/-- steps for the tile bounds `b₀ :: tail`: called on `tail`. WITH fix F42:
+`bound * steps[0] if bound and steps[0] is not None else None`. -/
 def fsSteps (simple : Option Nat) : List (Option Nat) → List (Option Nat)
   | [] => [simple]
   | b :: r =>
     let inner := fsSteps simple r
     let h := inner.head?.join
+    (if truthy b && h.isSome then some (b.getD 0 * h.getD 0) else none) :: inner
+
+/-- BEFORE fix F42 (finding D42): `bound * steps[0] if bound and steps[0] else None` — a step 0 is falsy and makes the
+outer step `None`. -/
+def fsStepsPre (simple : Option Nat) : List (Option Nat) → List (Option Nat)
+  | [] => [simple]
+  | b :: r =>
+    let inner := fsStepsPre simple r
+    let h := inner.head?.join
     (if truthy b && truthy h then some (b.getD 0 * h.getD 0) else none) :: inner
+
+def fromStridePre (simple : Option Nat) (tb : List (Option Nat)) : List Stride :=
+  List.zipWith Stride.mk (fsStepsPre simple tb.tail) tb
+
+def fromStridesPre (strides : List (Option Nat)) (tbs : List (List (Option Nat))) (offset : Option Nat) : Tsl :=
+  ⟨List.zipWith fromStridePre strides tbs, offset⟩
 
 def fromStride (simple : Option Nat) (tb : List (Option Nat)) : List Stride :=
   List.zipWith Stride.mk (fsSteps simple tb.tail) tb
@@ -126,6 +142,21 @@ def tslOf (t other : MemTy) (srcShape : List (Option Nat)) : Except Err Tsl :=
         | .tsl l => l.tileBounds
         | _ => shapeTileBounds srcShape
       .ok (fromStrides strides tbs (extractOffset t))
+
+/-- `tslOf` BEFORE fix F42 -/
+def tslOfPre (t other : MemTy) (srcShape : List (Option Nat)) : Except Err Tsl :=
+  match t.layout with
+  | .tsl l => .ok l
+  | .other => .error .notImplemented
+  | _ =>
+    match extractStrides t with
+    | none => .error .noMatch
+    | some strides =>
+      if strides.isEmpty then .error .noMatch else
+      let tbs := match other.layout with
+        | .tsl l => l.tileBounds
+        | _ => shapeTileBounds srcShape
+      .ok (fromStridesPre strides tbs (extractOffset t))
 
 /-! ### entries: one record per (dim, depth) carrying both static strides and the run-time values -/
 
@@ -406,6 +437,25 @@ def transformDma (byValue : Bool) (src dst : MemTy) (rs rd : Rt) : Except Err Lo
   | .error e => .error e
   | .ok tS =>
     match tslOf dst src src.shape with
+    | .error e => .error e
+    | .ok tD =>
+      match resolve src dst tS tD rs rd with
+      | .error e => .error e
+      | .ok nested =>
+        match lowerResolved byValue src.el (applyOffset rs.base src.el tS.offset rs.offset)
+            (applyOffset rd.base dst.el tD.offset rd.offset) rs.shape nested with
+        | .error e => .error e
+        | .ok r => .ok ⟨tS, tD, nested, r.1, r.2⟩
+
+/-- `TransformDMA.match_and_rewrite` BEFORE fix F42 (finding D42): the reconstruction uses `from_stride` with the
+truthiness test on the inner step. Kept for the refutation `strided_source_address_pre42_fails` and for checking an
+unpatched tree (driver arg `pre42`, harness env `C05_PRE42=1`). -/
+def transformDmaPre42 (byValue : Bool) (src dst : MemTy) (rs rd : Rt) : Except Err Lowered :=
+  if src.shape != dst.shape || src.el != dst.el || src.isInt != dst.isInt || !src.isInt then .error .noMatch else
+  match tslOfPre src dst src.shape with
+  | .error e => .error e
+  | .ok tS =>
+    match tslOfPre dst src src.shape with
     | .error e => .error e
     | .ok tD =>
       match resolve src dst tS tD rs rd with
